@@ -76,7 +76,11 @@ def parse_instagram_url(url):
     if not is_instagram_url(url):
         return None
 
-    parsed = safe_urlsplit(url)
+    try:
+        parsed = safe_urlsplit(url)
+    except ValueError:
+        return None
+
     path = pathsplit(parsed.path)
 
     if not path:
